@@ -158,7 +158,7 @@ def run(ctx):
             ctx.violation({'kind': 'chars', 'fn': 'is_int_like', 'want': canon},
                           {'text': text, 'expected': canon, 'observed': repr(got)},
                           'is_int_like(%r) -> %s, specification %s' % (text, got, canon))
-        for lo, hi in ((None, None), (1, 9)):
+        for lo, hi in ((None, None), (1, 9), (0, None), (None, 0), (0, 0)):
             want = ('ValueError', None)
             if lit['ok'] and (lo is None or lit['val'] >= lo) and (hi is None or lit['val'] <= hi):
                 want = ('ok', lit['val'])
@@ -168,7 +168,7 @@ def run(ctx):
                               {'text': text, 'min': lo, 'max': hi, 'expected': repr(want), 'observed': repr(got)},
                               'validate_integer(%r, min=%s, max=%s) -> %s, specification %s' % (text, lo, hi, got, want))
     res3.records = None
-    ctx.cov['evaluations'] += 3 * z
+    ctx.cov['evaluations'] += 6 * z
     ctx.stage('char-level', strings=z, integer_literals=lits, canonical=canons)
     if lits < 100 or canons < 20:
         raise MachineryError('vacuity: character-level enumeration: %d literals, %d canonical' % (lits, canons))
